@@ -508,6 +508,16 @@ func main() {
 	for _, h := range [][]byte{{0x4e, 0xff, 0xff, 0xff, 0xff}, {0x4e, 0xff, 0xff, 0xff, 0x7f, 1, 2}, {0x4e, 0, 0, 0, 0x80}, {0x4d, 0xff, 0xff, 1}, {0x4c, 0xff}, {0x4e, 0, 0, 0}, {0x4d, 0}, {0x4c}, {0x4b}} {
 		truncatedPush([]byte{0x51}, h)
 	}
+	// each length byte of PUSHDATA2/4 on its own, followed by more data than any reading of it needs
+	c.PerShard = 2
+	for _, h := range [][]byte{{0x4e, 0, 0, 0, 1}, {0x4e, 0, 0, 1, 0}, {0x4e, 0, 1, 0, 0}, {0x4e, 1, 0, 0, 0}, {0x4d, 0, 1}, {0x4d, 1, 0}} {
+		fill := make([]byte, 70000)
+		for i := range fill {
+			fill[i] = 0x61
+		}
+		scriptCase("length-byte-weights", append(append([]byte{}, h...), fill...))
+	}
+	c.PerShard = 8
 	// zero-length pushes in every form
 	for _, z := range [][]byte{{0x4c, 0}, {0x4d, 0, 0}, {0x4e, 0, 0, 0, 0}} {
 		scriptCase("zero-length-push", append(append([]byte{0x51}, z...), 0x52))
